@@ -449,6 +449,45 @@ pub fn run_c08(out: &mut Out, tier: &str, rng: &mut Rng) {
             out.count("speed sweep on a running engine");
         }
     }
+    // which slots of the shared context each handler touches (see C01): the stored command at most once per handler
+    {
+        use glonax::runtime::verif_access;
+        let (da, sa) = (0x00u8, 0x27u8);
+        for i in 0..(if thorough { 400 } else { 80 }) {
+            let drv = make("d7e", da, sa);
+            let mut ctx = NetDriverContext::default();
+            let raw = (*rng.pick(&[0u16, 300, 1500]) * 8).to_le_bytes();
+            let f = frame8(make_id(3, 61444, 0, da), [0xF0, 0x7D, 0x80, raw[0], raw[1], 0xFF, 0xFF, 0xFF]);
+            let mut rxq = vec![];
+            if i % 2 == 0 {
+                let _ = drv.try_recv(&mut ctx, &f, &mut rxq);
+            }
+            if i % 3 != 0 {
+                let mut t = vec![];
+                let _ = drv.trigger(&mut ctx, &mut t, &Object::Engine(Engine { driver_demand: 0, actual_engine: 0, rpm: 1200, state: EngineState::Request }));
+            }
+            let _ = verif_access::take();
+            let kind = ["tick", "cmd-engine", "cmd-other", "rx"][i % 4];
+            let mut t = vec![];
+            match kind {
+                "tick" => {
+                    let _ = drv.tick(&mut ctx, &mut t);
+                }
+                "cmd-engine" => {
+                    let _ = drv.trigger(&mut ctx, &mut t, &Object::Engine(Engine { driver_demand: 0, actual_engine: 0, rpm: *rng.pick(&[0u16, 900, 1555]), state: *rng.pick(&[EngineState::NoRequest, EngineState::Starting, EngineState::Stopping, EngineState::Request]) }));
+                }
+                "cmd-other" => {
+                    let _ = drv.trigger(&mut ctx, &mut t, &Object::Motion(glonax::core::Motion::StopAll));
+                }
+                _ => {
+                    let _ = drv.try_recv(&mut ctx, &f, &mut rxq);
+                }
+            }
+            let tr = verif_access::take();
+            out.case(&format!("acc {}", kind), &if tr.is_empty() { "-".to_string() } else { tr.join(",") }, true);
+            out.count(&format!("access trace of {}", kind));
+        }
+    }
     let depth = if thorough { 7 } else { 5 };
     for len in 1..=depth {
         let total = 5usize.pow(len as u32);
